@@ -56,6 +56,7 @@ type Bus struct {
 	// connection stalls, Publish returns when the sender's context ends and
 	// reports that context's error (only for contexts that have a deadline)
 	StallSendP float64
+	stalled    atomic.Int32
 	// Sink may consume a published envelope at the moment of its delivery, in
 	// place of the recipient's client (the harness plays a protocol role of
 	// the recipient, e.g. the receiver of a channel synchronisation reply).
@@ -189,6 +190,12 @@ func (b *Bus) Reserialise(e *wire.Envelope) (out *wire.Envelope, err error) {
 	return out, nil
 }
 
+// StalledSends is the number of sends that are stalling right now (see
+// StallSendP). Drivers that are about to overfill a receiver wait for it to
+// become zero: a Put parked under a relay's standard read lock until a
+// stalled sender's context ends would freeze the simulated clock (rule R3).
+func (b *Bus) StalledSends() int { return int(b.stalled.Load()) }
+
 // Publish implements wire.Publisher.
 func (b *Bus) Publish(ctx context.Context, e *wire.Envelope) error {
 	if b.S.Overrun() {
@@ -208,7 +215,9 @@ func (b *Bus) Publish(ctx context.Context, e *wire.Envelope) error {
 		if _, has := ctx.Deadline(); has && b.StallSendP > 0 && !b.S.UnderStdMutex() && b.S.Chance("send-stall:"+key, b.StallSendP) {
 			b.S.Event(from, "send-stall", desc+" -> "+to+" [injected: the connection stalls until the sender's context ends]")
 			b.S.Count("fault.send_stalled_until_deadline", 1)
+			b.stalled.Add(1)
 			<-ctx.Done()
+			b.stalled.Add(-1)
 			return ctx.Err()
 		}
 		b.S.Event(from, "send-error", desc+" -> "+to+" [injected connection fault]")
